@@ -4,6 +4,7 @@ package main
 
 import (
 	"encoding/json"
+	"go/types"
 	"fmt"
 	"os"
 	"path/filepath"
@@ -286,6 +287,132 @@ func (cc *checkCtx) finishEvidence(ev *Evidence) {
 // propertySpecific runs deciders that are not per-function VCs (lemmas, scans, bounded stand-ins).
 func (cc *checkCtx) propertySpecific() {
 	cc.runLemmas()
+	cc.runAccessScans()
+}
+
+// runAccessScans: frame scans over the SSA of the whole repository. A field with a readers/writers declaration may
+// only be read/written by the listed functions; package-level variables may only be written by initialisers and the
+// listed functions. Each offending function is a failing obligation named after it.
+func (cc *checkCtx) runAccessScans() {
+	e := cc.e
+	for _, as := range e.db.Access {
+		if !hasTag(as.Tags, cc.prop) {
+			continue
+		}
+		allowed := map[string]bool{}
+		for _, f := range as.Funcs {
+			allowed[f] = true
+		}
+		offenders := map[string]string{}
+		nsites := 0
+		for _, fn := range e.allFuncs {
+			if !e.inRepo(fn) || fn.Blocks == nil {
+				continue
+			}
+			key := e.keyOf(fn)
+			for _, b := range fn.Blocks {
+				for _, ins := range b.Instrs {
+					switch as.Kind {
+					case "readers", "writers":
+						fa, ok := ins.(*ssa.FieldAddr)
+						if !ok {
+							continue
+						}
+						pt := fa.X.Type().Underlying().(*types.Pointer).Elem()
+						if typeKey(pt)+"."+fieldName(fa.X.Type(), fa.Field) != as.Field {
+							continue
+						}
+						reads, writes := false, false
+						for _, r := range *fa.Referrers() {
+							switch u := r.(type) {
+							case *ssa.Store:
+								if u.Addr == fa {
+									writes = true
+								} else {
+									reads = true
+								}
+							default:
+								reads = true
+							}
+						}
+						if as.Kind == "readers" && reads || as.Kind == "writers" && writes {
+							nsites++
+							if !allowed[key] {
+								offenders[key] = cc.posOfIns(ins)
+							}
+						}
+					case "globalwriters":
+						var addr ssa.Value
+						switch u := ins.(type) {
+						case *ssa.Store:
+							addr = u.Addr
+						case *ssa.MapUpdate:
+							addr = u.Map
+						default:
+							continue
+						}
+						if g := globalRoot(addr); g != nil && e.inRepoPkg(g.Pkg) {
+							nsites++
+							if fn.Name() != "init" && !strings.HasPrefix(fn.Name(), "init#") && !allowed[key] {
+								offenders[key+" writes "+g.Name()] = cc.posOfIns(ins)
+							}
+						}
+					}
+				}
+			}
+		}
+		name := fmt.Sprintf("scan:%s#%s@%s", as.Kind, as.Kind, as.Field)
+		if len(offenders) == 0 {
+			cc.extra = append(cc.extra, &Obligation{Name: name, Kind: "scan", Tags: as.Tags, Fn: "scan", Result: "unsat", Solver: "ssa-scan",
+				Desc: fmt.Sprintf("%d access sites, all in the declared functions", nsites), Pos: fmt.Sprintf("%s:%d", as.File, as.Line)})
+			continue
+		}
+		for _, k := range sortedKeys(offenders) {
+			cc.extra = append(cc.extra, &Obligation{Name: name + ":" + k, Kind: "scan", Tags: as.Tags, Fn: "scan", Result: "sat", Solver: "ssa-scan",
+				Desc: "undeclared " + as.Kind + " access in " + k + " at " + offenders[k], Pos: offenders[k]})
+		}
+	}
+}
+
+func (cc *checkCtx) posOfIns(ins ssa.Instruction) string {
+	p := ins.Pos()
+	if !p.IsValid() {
+		return ""
+	}
+	pp := cc.e.prog.Fset.Position(p)
+	return fmt.Sprintf("%s:%d", strings.TrimPrefix(pp.Filename, cc.e.repo+"/"), pp.Line)
+}
+
+// globalRoot: the package-level variable a store address is derived from (directly, through a field/element address,
+// or through a value loaded from the variable, e.g. a map or slice held in it).
+func globalRoot(v ssa.Value) *ssa.Global {
+	for i := 0; i < 8; i++ {
+		switch x := v.(type) {
+		case *ssa.Global:
+			return x
+		case *ssa.FieldAddr:
+			v = x.X
+		case *ssa.IndexAddr:
+			v = x.X
+		case *ssa.UnOp:
+			v = x.X
+		case *ssa.Slice:
+			v = x.X
+		case *ssa.ChangeType:
+			v = x.X
+		default:
+			return nil
+		}
+	}
+	return nil
+}
+
+func (e *Engine) inRepoPkg(p *ssa.Package) bool {
+	if p == nil {
+		return false
+	}
+	_, ok := e.byName[p.Pkg.Name()]
+	return ok && strings.HasPrefix(p.Pkg.Path(), jsightAPI)
 }
 
 // runLemmas discharges the standalone lemmas tagged with the property (SMT validity of a closed contract formula).
